@@ -16,7 +16,7 @@ m = {
   "add_only": True
  },
  "engines": [
-  {"name": "lean-proofs", "path": "lean/PacketVerif", "serves_properties": sorted(checks), "kind_free_text": "Lean 4 model (Model/*), reference specs (Spec/*), property theorems (Props/Cxx.lean), regenerated facts (Gen/Facts.lean)"},
+  {"name": "lean-proofs", "path": "lean/PacketVerif", "serves_properties": sorted(k for k in checks if k in text and checks[k].get("claim", True)), "kind_free_text": "Lean 4 model (Model/*), reference specs (Spec/*), property theorems (Props/Cxx.lean), regenerated facts (Gen/Facts.lean)"},
   {"name": "correspondence-harness", "path": "harness", "serves_properties": sorted(k for k, v in checks.items() if v.get("harness")), "kind_free_text": "Go differential harness: real code (built from /repo with -tags verif + overlay) vs compiled Lean model driver pktmodel, plus property oracles as search stage"},
   {"name": "goextract", "path": "tools/goextract", "serves_properties": sorted(k for k, v in checks.items() if v.get("facts")), "kind_free_text": "go/packages fact translator regenerating Gen/Facts.lean from the source on every run"}
  ],
@@ -26,7 +26,7 @@ m = {
 }
 for p in props:
     pid = p["id"]
-    if pid in checks:
+    if pid in checks and pid in text and checks[pid].get('claim', True):
         t = text[pid]
         m["checks"].append({
          "property_id": pid,
